@@ -15,6 +15,7 @@ mod backend;
 mod configx;
 mod unusable;
 mod registry;
+pub mod parsex;
 
 use std::collections::HashMap;
 
@@ -72,6 +73,7 @@ fn main() {
         "damage" => unusable::run_damage(&args),
         "faultdiag" => unusable::run_faultdiag(&args),
         "registry" => registry::run(&args),
+        "parse" => parsex::run(&args),
         other => {
             eprintln!("unknown stream {other}");
             std::process::exit(2);
